@@ -442,86 +442,101 @@ def gen_sel_value(rng, classes, f, valid):
     return rng.choice([I(4), NONE, S("a"), {"t": "type", "cls": rng.choice(lower)}]), None
 
 
+DCISH = ("sg", "dc", "union", "opt")
+
+
+def gen_sel_tree(rng, classes, cur, path, valid, depth, sels, top=False):
+    """intended selections below the instance tree `cur` (the value that will sit at `path`): each chosen field is
+    either selected itself (by key / type / instance; children then address the NEW member) or only passed through
+    (children address the current value)."""
+    c = cls_by_name(classes)[cur["cls"]]
+    cand = [f for f in c["fields"] if f["kind"] in DCISH] if (valid or not top) else list(c["fields"])
+    rng.shuffle(cand)
+    n = rng.choice([0, 1, 1, 2, 3]) if top else rng.choice([1, 1, 2])
+    for f in cand[:n]:
+        curv = tree_get(cur, [f["name"]])
+        can_pass = f["kind"] == "dc" and curv is not None and curv.get("t") == "inst" and depth > 1
+        if can_pass and rng.random() < 0.3:
+            before = len(sels)
+            gen_sel_tree(rng, classes, curv, path + [f["name"]], valid, depth - 1, sels)
+            for s_ in sels[before:]:
+                s_["passthrough"] = True
+            continue
+        v, member = gen_sel_value(rng, classes, f, valid)
+        sels.append({"path": path + [f["name"]], "v": v, "member": member})
+        if member is not None and member.get("t") == "inst" and depth > 1 and rng.random() < 0.55:
+            mc = cls_by_name(classes)[member["cls"]]
+            if any(g["kind"] in DCISH for g in mc["fields"]):
+                gen_sel_tree(rng, classes, member, path + [f["name"]], valid, depth - 1, sels)
+
+
+def render_sel(rng, sels, form=None):
+    """selection dict for [(path, value)]: per head the flat (dotted, any depth) or the nested (`__key__`) form;
+    the items of every level are shuffled, so a parent entry may come before, between or after its children."""
+    heads = []
+    for p_, _ in sels:
+        if p_[0] not in heads:
+            heads.append(p_[0])
+    items = []
+    for h in heads:
+        own = [v for p_, v in sels if p_ == [h]]
+        kids = [(p_[1:], v) for p_, v in sels if len(p_) >= 2 and p_[0] == h]
+        if not kids:
+            items.append((h, own[0]))
+            continue
+        f = form or rng.choice(["flat", "flat", "nested"])
+        if f == "flat":
+            if own:
+                items.append((h, own[0]))
+            for p_, v in kids:
+                items.append((".".join([h] + p_), v))
+        else:
+            sub = ditems(render_sel(rng, kids, form))
+            if own:
+                sub.insert(rng.randrange(len(sub) + 1), (KW, own[0]))
+            items.append((h, D(sub)))
+    rng.shuffle(items)
+    return D(items)
+
+
 def gen_subgroups_case(rng, tier):
-    depth = rng.choice([2, 2, 3, 3, 4])
+    depth = rng.choice([2, 3, 3, 4, 4])
     classes, root = gen_forest(rng, depth, with_sg=True)
     if rng.random() < 0.85:       # replace_subgroups rejects any class with an init=False field
         for c in classes:
             for f in c["fields"]:
                 f["init"] = True
     obj = gen_inst(rng, classes, root, p_default=0.2)
-    valid = rng.random() < 0.6
+    valid = rng.random() < 0.65
     sels = []         # intended selections: {"path", "v", "member"}
-    rootc = cls_by_name(classes)[root]
-    cand = [f for f in rootc["fields"] if f["kind"] in ("sg", "dc", "union", "opt")] if valid else list(rootc["fields"])
-    rng.shuffle(cand)
-    for f in cand[: rng.choice([0, 1, 1, 2, 3])]:
-        v, member = gen_sel_value(rng, classes, f, valid)
-        sels.append({"path": [f["name"]], "v": v, "member": member})
-        # child selection below the newly selected member
-        if member is not None and member.get("t") == "inst" and rng.random() < 0.5:
-            mc = cls_by_name(classes)[member["cls"]]
-            sub = [g for g in mc["fields"] if g["kind"] in ("sg", "dc", "union", "opt")]
-            if sub:
-                g = rng.choice(sub)
-                v2, m2 = gen_sel_value(rng, classes, g, valid)
-                sels.append({"path": [f["name"], g["name"]], "v": v2, "member": m2})
-    # pass-through selection: a member of a nested dataclass field without selecting the field itself
-    if rng.random() < 0.35:
-        for f in rootc["fields"]:
-            if f["kind"] == "dc" and not any(s["path"][0] == f["name"] for s in sels):
-                mc = cls_by_name(classes)[f["cls"][0]]
-                sub = [g for g in mc["fields"] if g["kind"] in ("sg", "dc", "union", "opt")]
-                if sub:
-                    g = rng.choice(sub)
-                    v2, m2 = gen_sel_value(rng, classes, g, valid)
-                    sels.append({"path": [f["name"], g["name"]], "v": v2, "member": m2, "passthrough": True})
-                break
-    # render: dotted or nested per head
-    heads = []
-    for s in sels:
-        if s["path"][0] not in heads:
-            heads.append(s["path"][0])
-    items = []
-    for h in heads:
-        own = [s for s in sels if s["path"] == [h]]
-        kids = [s for s in sels if len(s["path"]) == 2 and s["path"][0] == h]
-        if not kids:
-            items.append((h, own[0]["v"]))
-        elif rng.random() < 0.5:
-            if own:
-                items.append((h, own[0]["v"]))
-            for s in kids:
-                items.append((h + "." + s["path"][1], s["v"]))
-        else:
-            sub = ([(KW, own[0]["v"])] if own else []) + [(s["path"][1], s["v"]) for s in kids]
-            items.append((h, D(sub)))
+    gen_sel_tree(rng, classes, obj, [], valid, rng.choice([1, 2, 2, 3, 3]), sels, top=True)
+    items = ditems(render_sel(rng, [(s_["path"], s_["v"]) for s_ in sels]))
     if not valid and rng.random() < 0.3:
-        items.append(("zz_unknown", S("a")))
+        items.insert(rng.randrange(len(items) + 1), ("zz_unknown", S("a")))
     sel = None if (not items and rng.random() < 0.5) else D(items)
     return {"op": "replace.subgroups", "case": {"classes": classes, "obj": obj, "sel": sel, "sels": sels, "valid": valid}}
 
 
 def gen(rng, tier):
     q = tier == "quick"
-    for _ in range(400 if q else 4000):
+    for _ in range(400 if q else 1500):
         yield {"op": "replace.unflatten", "case": {"ch": D(gen_unflatten_case(rng))}}
-    for _ in range(300 if q else 3000):
+    for _ in range(300 if q else 1000):
         yield {"op": "replace.unflatten_sel", "case": {"sel": D(gen_unflatten_sel_case(rng))}}
-    for _ in range(1500 if q else 12000):
+    for _ in range(1500 if q else 5000):
         yield gen_replace_case(rng, tier)
-    for _ in range(250 if q else 2500):
+    for _ in range(250 if q else 1200):
         yield gen_replace_case(rng, tier, touch=True)
     for bad in ("noninit", "unknown", "through"):
-        for _ in range(200 if q else 1500):
+        for _ in range(200 if q else 600):
             yield gen_replace_case(rng, tier, bad=bad)
-    for _ in range(400 if q else 3000):
+    for _ in range(400 if q else 1200):
         yield gen_malformed_case(rng, tier)
-    for _ in range(100 if q else 600):
+    for _ in range(100 if q else 300):
         yield gen_replace_case(rng, tier, reserved=True)
-    for _ in range(1200 if q else 10000):
+    for _ in range(1200 if q else 5000):
         yield gen_subgroups_case(rng, tier)
-    for _ in range(200 if q else 1500):
+    for _ in range(200 if q else 600):
         c = gen_replace_case(rng, tier)["case"]
         ok = [e for e in c["edits"] if e["kind"] == "ok"]
         if ok:
@@ -651,6 +666,21 @@ def ref_apply(obj, edits):
     return dataclasses.replace(obj, **kwargs)
 
 
+def _slim(a, mainv=None):
+    """observations are kept small: a value equal to the one it is compared with is recorded as `same: True`"""
+    ru = a.get("reuse")
+    if ru is not None and ru["o"] == "ok" and a["o"] == "ok" and ru["v"] == a["v"]:
+        a["reuse"] = {"o": "ok", "same": True}
+    if mainv is not None and a["o"] == "ok" and a["v"] == mainv:
+        del a["v"]
+        a["same"] = True
+    return a
+
+
+def _val(a, mainv):
+    return mainv if a.get("same") else a.get("v")
+
+
 def impl(case):
     op, c = case["op"], case["case"]
     if op == "replace.unflatten":
@@ -695,7 +725,11 @@ def impl(case):
             return dict({"o": "raise", "exc": r["exc"]}, **extra), None
 
         res, val = call(c["cd"], c["kw"])
-        obs = {"out": res, "before": before, "after": sp.cv(obj), "unchanged": bool(obj == keep)}
+        _slim(res)
+        after = sp.cv(obj)
+        obs = {"out": res, "before": before, "unchanged": bool(obj == keep)}
+        if after != before:
+            obs["after"] = after
         edits = c.get("edits") or []
         if c["stream"] == "edits" and all(e["kind"] in ("ok", "touch") for e in edits):
             pe = [(e["path"], e["v"]) for e in edits]
@@ -707,18 +741,22 @@ def impl(case):
                 "dotted": (render(r0, pe, "dotted"), D([])),
                 "nested": (render(r0, pe, "nested"), D([])),
                 "kw": (None, render(r0, pe, "nested")),
+                "dotted_rev": (D(ditems(render(r0, pe, "dotted"))[::-1]), D([])),
+                "mixed_shuffled": (render(random.Random(len(pe) + 17), pe, "mixed"), D([])),
             }.items():
                 if name == "kw" and any(k in RESERVED for k, _ in ditems(kw)):
                     continue
                 a, aval = call(cd, kw)
-                alts[name] = a
+                alts[name] = _slim(a, res.get("v"))
                 if val is not None and aval is not None:
                     alts[name]["py_eq"] = bool(aval == val)
             obs["alts"] = alts
             rr = outcome(lambda: ref_apply(obj, [(e["path"], build_value(e["v"], real)) for e in edits if e["kind"] == "ok"]))
-            obs["ref"] = ({"o": "ok", "v": sp.cv(rr["value"]), "py_eq": bool(val is not None and rr["value"] == val)}
+            obs["ref"] = (_slim({"o": "ok", "v": sp.cv(rr["value"]), "py_eq": bool(val is not None and rr["value"] == val)}, res.get("v"))
                           if rr["o"] == "ok" else {"o": "raise", "exc": rr["exc"]})
-            obs["after"] = sp.cv(obj)
+            after = sp.cv(obj)
+            if after != before:
+                obs["after"] = after
             obs["unchanged"] = bool(obj == keep)
         return obs
     if op == "replace.subgroups":
@@ -731,7 +769,11 @@ def impl(case):
             out = {"o": "ok", "v": sp.cv(v), "same_type": type(v) is type(obj), "is_same": v is obj}
         else:
             out = {"o": "raise", "exc": r["exc"]}
-        return {"out": out, "before": before, "after": sp.cv(obj), "unchanged": bool(obj == keep)}
+        obs = {"out": out, "before": before, "unchanged": bool(obj == keep)}
+        after = sp.cv(obj)
+        if after != before:
+            obs["after"] = after
+        return obs
     raise ValueError(op)
 
 
@@ -843,7 +885,7 @@ def oracle(case, obs):
     fails = []
     if op in ("replace.unflatten", "replace.unflatten_sel", "replace.ref"):
         return fails
-    if not obs["unchanged"] or obs["before"] != obs["after"]:
+    if not obs["unchanged"] or "after" in obs:
         fails.append({"clause": "input-unchanged", "detail": "obj differs from its deep copy after the call"})
     out = obs["out"]
     classes = c["classes"]
@@ -865,7 +907,7 @@ def oracle(case, obs):
         if out.get("arg_unchanged") is False:
             fails.append({"clause": "changes-arg-unchanged", "detail": "the positional change-set dict was modified by replace()"})
         ru = out.get("reuse")
-        if ru is not None and (ru["o"] != out["o"] or (ru["o"] == "ok" and ru["v"] != out["v"])):
+        if ru is not None and (ru["o"] != out["o"] or (ru["o"] == "ok" and _val(ru, out["v"]) != out["v"])):
             fails.append({"clause": "reuse", "detail": f"re-using the same change-set dict gives {canon(ru)[:300]} instead of the first result"})
         edits = c["edits"]
         status = [edit_status(c["obj"], classes, e) for e in edits]
@@ -890,14 +932,15 @@ def oracle(case, obs):
                           "got": out["v"], "exp": exp})
         for name, a in (obs.get("alts") or {}).items():
             aru = a.get("reuse")
-            if a.get("arg_unchanged") is False or (aru is not None and (aru["o"] != a["o"] or (aru["o"] == "ok" and aru["v"] != a["v"]))):
+            av = _val(a, out["v"])
+            if a.get("arg_unchanged") is False or (aru is not None and (aru["o"] != a["o"] or (aru["o"] == "ok" and _val(aru, av) != av))):
                 fails.append({"clause": "reuse", "form": name,
                               "detail": f"{name} form: the change-set dict is consumed / gives {canon(a.get('reuse'))[:200]} when applied again"})
-            if a["o"] != "ok" or a["v"] != out["v"] or not a.get("py_eq", False):
+            if a["o"] != "ok" or av != out["v"] or not a.get("py_eq", False):
                 fails.append({"clause": "forms", "form": name,
                               "detail": f"{name} form of the same edits gives {canon(a)[:300]} instead of the same result"})
         ref = obs.get("ref")
-        if ref is not None and (ref["o"] != "ok" or ref["v"] != out["v"] or not ref["py_eq"]):
+        if ref is not None and (ref["o"] != "ok" or _val(ref, out["v"]) != out["v"] or not ref["py_eq"]):
             fails.append({"clause": "reference", "detail": f"level-by-level dataclasses.replace gives {canon(ref)[:300]}"})
         return fails
     if op == "replace.subgroups":
@@ -1016,6 +1059,13 @@ def tags(case, obs):
         t.append("out:" + (o["o"] if o["o"] == "ok" else o["exc"]))
         t.append("valid:%s" % c["valid"])
         t.append(f"sels:{len(c['sels'])}")
+        t.append(f"sel-depth:{max([len(s['path']) for s in c['sels']] or [0])}")
+        keys = [k for k, _ in ditems(c["sel"])] if c["sel"] else []
+        for i_, k in enumerate(keys):
+            if any(k2.startswith(k + ".") for k2 in keys[:i_]):
+                t.append("order:parent-after-child")
+            if any(k2.startswith(k + ".") for k2 in keys[i_ + 1:]):
+                t.append("order:parent-before-child")
     elif op in ("replace.unflatten", "replace.unflatten_sel"):
         t.append("out:" + (obs["o"] if obs["o"] == "ok" else obs["exc"]))
     return t
@@ -1045,6 +1095,11 @@ def shrink(case):
             for s in ns:
                 items.append((".".join(s["path"]), s["v"]))
             yield {"op": op, "case": dict(c, sels=ns, sel=D(items))}
+            yield {"op": op, "case": dict(c, sels=ns, sel=D(items[::-1]))}
+        flat = [(".".join(s["path"]), s["v"]) for s in sels]
+        for cand in (flat, flat[::-1]):
+            if canon(D(cand)) != canon(c["sel"]):
+                yield {"op": op, "case": dict(c, sel=D(cand))}
 
 
 MANIFEST = {
